@@ -58,7 +58,10 @@ class ShardState:
         v = None
         import signal
         signal.signal(signal.SIGALRM, _alarm)
-        signal.setitimer(signal.ITIMER_REAL, CASE_TIMEOUT_S)
+        limit = CASE_TIMEOUT_S
+        if getattr(self.sub, 'hang_is_violation', False):
+            limit = min(CASE_TIMEOUT_S, 30)
+        signal.setitimer(signal.ITIMER_REAL, limit)
         try:
             try:
                 self.sub.fn(case, ctx)
@@ -67,9 +70,15 @@ class ShardState:
         except CaseTimeout:
             # wall-clock is never a correctness signal: counted as
             # inconclusive, the case is kept for inspection
-            self.inconclusive += 1
             ctx.event('case_timeout')
             self.timeouts.append(jcase)
+            if getattr(self.sub, 'hang_is_violation', False):
+                v = Violation('nontermination',
+                              f'the call did not return within '
+                              f'{limit} s (cases of this sub-check '
+                              f'take milliseconds)')
+            else:
+                self.inconclusive += 1
         except Violation as exc:
             v = exc
         except Inconclusive:
